@@ -16,11 +16,100 @@ def gen_stack(rng, tier):
     return cases
 
 
+def script_case(rng):
+    kind = rng.choice(["REQ", "REP"])
+    n = rng.randrange(5, 17)
+    evs = []
+    started = []
+    nxt = [1]
+
+    def start(prefix):
+        evs.append("%s%d" % (prefix, nxt[0]))     # every receive gets a task id of its own
+        started.append(nxt[0])
+        nxt[0] += 1
+
+    def drop():
+        if started:
+            evs.append("x%d" % rng.choice(started))
+
+    if kind == "REP":
+        for _ in range(n):
+            r = rng.random()
+            if r < 0.35:
+                start("r")
+            elif r < 0.6:
+                evs.append("q%d" % rng.randrange(1, 3))
+            elif r < 0.9:
+                evs.append("s")
+            else:
+                drop()
+    else:
+        style = rng.choice(["r", "m"])      # one receive style per script: which waiter wins a reply is not scripted
+        for _ in range(n):
+            r = rng.random()
+            if r < 0.3:
+                evs.append("s")
+            elif r < 0.6:
+                start(style)
+            elif r < 0.9:
+                evs.append("p")
+            else:
+                drop()
+    return ["fsmscript %s %s" % (kind, ",".join(evs))]
+
+
+def script_oracle(case, impl):
+    """the property itself, judged on the implementation's log"""
+    if not case[0].startswith("fsmscript") or not impl or not impl[0].startswith("log=["):
+        return None
+    kind = case[0].split(" ")[1]
+    log = impl[0][5:impl[0].index("]")].split(" ") if "]" in impl[0] else []
+    log = [x for x in log if x]
+    if kind == "REP":
+        last = None          # peer of the request being answered
+        for x in log:
+            if x.startswith("got:p"):
+                if last is not None:
+                    return "REP: two receives succeeded with no send in between: " + impl[0]
+                last = x[5:].split("-")[0]
+            elif x.startswith("s=ok"):
+                if last is None:
+                    return "REP: a send succeeded with no request pending: " + impl[0]
+                if x != "s=ok>P" + last:
+                    return "REP: reply went to %s, the request came from P%s: %s" % (x[5:], last, impl[0])
+                last = None
+    else:
+        outstanding = False
+        sends = recvs = 0
+        for x in log:
+            if x == "s=ok":
+                if outstanding:
+                    return "REQ: two sends succeeded with no receive in between: " + impl[0]
+                outstanding = True
+                sends += 1
+            elif x.startswith("got:"):
+                recvs += 1
+                outstanding = False
+                if recvs > sends:
+                    return "REQ: more replies received than requests sent: " + impl[0]
+    return None
+
+
+def gen_scripts(rng, tier):
+    return [script_case(rng) for _ in range(40 if tier == "quick" else 800)]
+
+
 SPEC = {
-    "components": [{"comp": "stack", "gen": gen_stack, "label": "stack-race", "shrink": False,
+    "components": [{"comp": "stack", "gen": gen_scripts, "label": "call-histories", "shrink": False, "oracle": script_oracle,
+                    "nontrivial": lambda c, i: any("got:" in l for l in i), "dist": lambda cs: {"cases": len(cs), "REQ": sum(1 for c in cs if " REQ " in c[0]), "events": sum(c[0].count(",") + 1 for c in cs)}},
+                   {"comp": "stack", "gen": gen_stack, "label": "stack-race", "shrink": False,
                     "nontrivial": lambda c, i: any("=ok" in l for l in i), "dist": lambda cs: {"cases": len(cs)}}],
-    "search": lambda rng, tier: [("stack", gen_stack(rng, "thorough" if tier == "thorough" else "quick"), None, False)],
-    "rule": "stack level, multi-thread runtime: 2..8 tasks hammer send()/recv() on clones of one REQ socket against a ROUTER peer that "
+    "search": lambda rng, tier: [("stack", [script_case(rng) for _ in range(300)], script_oracle, False),
+                                 ("stack", gen_stack(rng, "thorough" if tier == "thorough" else "quick"), None, False)],
+    "rule": "call histories: random scripts (5..16 events: receives started by up to 3 tasks in recv() or recv_multipart() style, sends, peer "
+            "requests/replies, dropped receive futures) run on a real REQ or REP socket with a settle pause after every event; each call's "
+            "outcome is compared with the model's (`ReqSys`/`RepSys` stepped by the same events) and judged by the property's own oracle; "
+            "stack level, multi-thread runtime: 2..8 tasks hammer send()/recv() on clones of one REQ socket against a ROUTER peer that "
             "pauses before every reply and reports a second request arriving meanwhile (race-free oracle at the peer); 2..8 tasks "
             "a scripted late-waiter history (two recv_multipart calls in one exchange, the second consumes the next exchange's reply; then recv "
             "must be refused and send accepted); 2..8 tasks hammer recv()+send(echo) on clones of one REP socket against two DEALER peers that each keep one request outstanding "
